@@ -82,7 +82,8 @@ def gen_cases(rng, tier):
                         {"k": "sum", "a": [{"k": "form", "name": "bornmayer", "p": [rng.choice([1e14, 1e16, 1e18]), 0.1]}, {"k": "form", "name": "constant", "p": [-spec.rfloat(rng, 1e-4, 1e-2, 6)]}]},
                         {"k": "sum", "a": [{"k": "form", "name": "bornmayer", "p": [1e15, 0.08]}, {"k": "form", "name": "morse", "p": [1.2, 2.0, 1e-3]}]}])
       m["pair"] = [[sp_, sp_, phi]]
-    cases.append({"kind": "funcfl", "route": "api_legacy", "model": m, "style": rng.randrange(1 << 30), "title": "title %d" % i})
+    cases.append({"kind": "funcfl", "route": "api_legacy", "model": m, "style": rng.randrange(1 << 30),
+                  "title": ["title %d", "title %d", "title %d", "title %d\n", "two\nlines %d"][i % 5] % i})
   for i in range(n):
     kind = ["pair", "eam", "fs"][i % 3]
     route = rng.choice(["api_class", "potable", "potable", "cli" if i % 10 == 0 else "potable"])
@@ -327,7 +328,7 @@ def run_funcfl(case, ctx, rng):
   except readers.FormatError as e:
     ctx.violation("funcfl_format", str(e), what="funcfl_format")
     return
-  if p["title"] != case["title"]:
+  if p["title"] != " ".join(case["title"].splitlines()):      # (the title is one line of the file, whatever the string holds)
     ctx.violation("funcfl_title", "title %r" % p["title"], what="funcfl_title")
   if any(k != 5 for k in p["per_line"][:-1]) and not (nrho % 5 or nr % 5):
     ctx.violation("funcfl_layout", "values per line: %s" % p["per_line"][:10], what="funcfl_layout")
